@@ -7,12 +7,15 @@ import (
 	"fmt"
 	"go/types"
 	"strings"
+
+	"verif/engine/smt"
 )
 
 type oentry struct {
 	key  value
 	val  value
 	live bool
+	sym  bool // key has symbolic parts (not in index)
 }
 
 type omap struct {
@@ -20,6 +23,7 @@ type omap struct {
 	index   map[string]int
 	entries []oentry
 	n       int
+	nsym    int
 	frozen  string
 }
 
@@ -101,28 +105,126 @@ func (m *omap) lookup(k value) (value, bool) {
 	return nil, false
 }
 
+// symKey reports whether a key holds symbolic parts.
+func symKey(k value) bool {
+	switch x := k.(type) {
+	case *Sym:
+		return true
+	case sstr:
+		return !allConcrete(x.b)
+	case structure, array, iface:
+		return hasSym(k)
+	}
+	return false
+}
+
+// mapLookup is lookup with support for symbolic keys (in k or in the map).
+// zeroV is the element zero value.
+func (i *interpreter) mapLookup(m *omap, k value, zeroV value) (value, value) {
+	if m == nil {
+		return zeroV, false
+	}
+	ksym := symKey(k)
+	if !ksym {
+		k = normKey(k)
+		if ix, ok := m.index[mapKey(k)]; ok {
+			return m.entries[ix].val, true
+		}
+		if m.nsym == 0 {
+			return zeroV, false
+		}
+	}
+	// candidates
+	var cands []int
+	for j, e := range m.entries {
+		if !e.live {
+			continue
+		}
+		if ksym || e.sym {
+			cands = append(cands, j)
+		}
+	}
+	if len(cands) == 0 {
+		return zeroV, false
+	}
+	// try a merged (fork-free) result
+	b := i.tb
+	conds := make([]*smt.Term, len(cands))
+	for c, j := range cands {
+		conds[c] = i.symEq(m.keyType, m.entries[j].key, k)
+	}
+	res := zeroV
+	ok := true
+	for c := len(cands) - 1; c >= 0 && ok; c-- {
+		res, ok = i.iteValue(conds[c], m.entries[cands[c]].val, res)
+	}
+	if ok {
+		return res, i.mk(b.Or(conds...), types.Bool)
+	}
+	for c, j := range cands {
+		if i.branch(conds[c]) {
+			return m.entries[j].val, true
+		}
+	}
+	return zeroV, false
+}
+
+func normKey(k value) value {
+	if s, ok := k.(sstr); ok && allConcrete(s.b) {
+		return bytesToGo(s.b)
+	}
+	return k
+}
+
+// findEntry locates (forking on symbolic equalities) the entry equal to k; -1 if none.
+func (i *interpreter) findEntry(m *omap, k value) int {
+	ksym := symKey(k)
+	if !ksym {
+		if ix, ok := m.index[mapKey(k)]; ok {
+			return ix
+		}
+		if m.nsym == 0 {
+			return -1
+		}
+	}
+	for j, e := range m.entries {
+		if !e.live || !(ksym || e.sym) {
+			continue
+		}
+		if i.branch(i.symEq(m.keyType, e.key, k)) {
+			return j
+		}
+	}
+	return -1
+}
+
 func (i *interpreter) mapInsert(m *omap, k, v value) {
 	if m == nil {
 		panic(runtimeError("assignment to entry in nil map"))
 	}
-	ks := mapKey(k)
 	if m.frozen != "" && i.ps != nil && i.ps.frozenOn {
 		i.res.FrozenWrites[m.frozen+" (map) @ "+i.curPosString()]++
 		i.ps.tags = append(i.ps.tags, "frozen-write:"+m.frozen)
 		i.frozenCount++
 	}
-	if ix, ok := m.index[ks]; ok {
+	k = normKey(k)
+	if ix := i.findEntry(m, k); ix >= 0 {
 		if i.ps != nil {
-			i.ps.undoMaps = append(i.ps.undoMaps, undoMap{m, k, m.entries[ix].val, true})
+			i.ps.undoMaps = append(i.ps.undoMaps, undoMap{m, ix, m.entries[ix].val, true})
 		}
 		m.entries[ix].val = v
 		return
 	}
 	if i.ps != nil {
-		i.ps.undoMaps = append(i.ps.undoMaps, undoMap{m, k, nil, false})
+		i.ps.undoMaps = append(i.ps.undoMaps, undoMap{m, len(m.entries), nil, false})
 	}
-	m.index[ks] = len(m.entries)
-	m.entries = append(m.entries, oentry{key: k, val: v, live: true})
+	sym := symKey(k)
+	if sym {
+		m.nsym++
+	} else {
+		m.index[mapKey(k)] = len(m.entries)
+	}
+	m.entries = append(m.entries, oentry{key: k, val: v, live: true, sym: sym})
 	m.n++
 }
 
@@ -130,9 +232,9 @@ func (i *interpreter) mapDelete(m *omap, k value) {
 	if m == nil {
 		return
 	}
-	ks := mapKey(k)
-	ix, ok := m.index[ks]
-	if !ok {
+	k = normKey(k)
+	ix := i.findEntry(m, k)
+	if ix < 0 {
 		return
 	}
 	if m.frozen != "" && i.ps != nil && i.ps.frozenOn {
@@ -140,47 +242,45 @@ func (i *interpreter) mapDelete(m *omap, k value) {
 		i.frozenCount++
 	}
 	if i.ps != nil {
-		i.ps.undoMaps = append(i.ps.undoMaps, undoMap{m, k, m.entries[ix].val, true})
+		i.ps.undoMaps = append(i.ps.undoMaps, undoMap{m, ix, m.entries[ix].val, true})
 	}
-	m.entries[ix].live = false
-	delete(m.index, ks)
+	e := &m.entries[ix]
+	e.live = false
+	if e.sym {
+		m.nsym--
+	} else {
+		delete(m.index, mapKey(e.key))
+	}
 	m.n--
 }
 
-// restore undoes one update (used by rollback, LIFO order).
-func (m *omap) restore(k, old value, had bool) {
-	ks := mapKey(k)
-	ix, ok := m.index[ks]
+// restore undoes one update at entry position ix (used by rollback, LIFO order).
+func (m *omap) restore(ix int, old value, had bool) {
 	if had {
-		if ok {
-			m.entries[ix].val = old
-			return
-		}
-		// was deleted: revive (order may differ from the original; acceptable
-		// because a revived entry only occurs for init-time maps that a path deleted from)
-		for j := range m.entries {
-			if !m.entries[j].live && mapKey(m.entries[j].key) == ks {
-				m.entries[j].live = true
-				m.entries[j].val = old
-				m.index[ks] = j
-				m.n++
-				return
+		e := &m.entries[ix]
+		if !e.live {
+			e.live = true
+			if e.sym {
+				m.nsym++
+			} else {
+				m.index[mapKey(e.key)] = ix
 			}
+			m.n++
 		}
-		m.index[ks] = len(m.entries)
-		m.entries = append(m.entries, oentry{key: k, val: old, live: true})
-		m.n++
+		e.val = old
 		return
 	}
-	if ok {
-		// was inserted: it is the last live entry in LIFO order
-		m.entries[ix].live = false
-		delete(m.index, ks)
-		m.n--
-		for len(m.entries) > 0 && !m.entries[len(m.entries)-1].live {
-			m.entries = m.entries[:len(m.entries)-1]
+	// was inserted at ix == len-1 in LIFO order
+	e := &m.entries[ix]
+	if e.live {
+		if e.sym {
+			m.nsym--
+		} else {
+			delete(m.index, mapKey(e.key))
 		}
+		m.n--
 	}
+	m.entries = m.entries[:ix]
 }
 
 type omapIter struct {
